@@ -87,12 +87,13 @@ Theorem C05_scalar_name_not_bit : forall name : str,
 Proof. exact scalar_name_not_bit_last. Qed.
 Print Assumptions C05_scalar_name_not_bit.
 
-(* a net name ending in '[' makes the reader raise IndexError (rejected input, see C15) *)
-Theorem C05_name_ending_in_bracket_raises : forall p : str,
-  (match p with c :: _ => c <> c_bsl | [] => True end) ->
-  sep_bracket (p ++ [c_lbr]) = None.
-Proof. exact scalar_name_lbr_error. Qed.
-Print Assumptions C05_name_ending_in_bracket_raises.
+(* a net name ending in '[' is not a bus bit (repaired: the reader used to raise IndexError) *)
+Theorem C05_name_ending_in_bracket_is_scalar : forall p : str,
+  sep_bracket (p ++ [c_lbr]) = Some (None, p ++ [c_lbr]).
+Proof. exact scalar_name_lbr_not_bit. Qed.
+Print Assumptions C05_name_ending_in_bracket_is_scalar.
+Example C05_name_ending_in_bracket_example : sep_bracket (s2l "a[") = Some (None, s2l "a[").
+Proof. vm_compute. reflexivity. Qed.
 
 (* multibit merge: any order, any bits missing *)
 Theorem C05_multibit_assemble : forall P (bits : list (N * list P)) c,
